@@ -31,6 +31,18 @@ claimed = {
          "error mapping; oracles: probe after heal succeeds on the same client object, retry-tagged calls return genuine results, "
          "connection error typed iff mapping is on, redial spacing from the dial log in fake time, no redial without reconnect.",
          "deterministic simulation with fault injection and fake-clock dial-log oracle"),
+ "C07": ("exploration", "exploration", "4 C07",
+         "Healthy-network search over producer/consumer/forwarder interleavings of 1-5 concurrent subscriptions (lengths 0..300, around the 32-slot sink buffer and the 256-frame executor queue), early producers, stalled and partial consumers, unary calls alongside; oracles: received == produced, close after the last value, wire tap: announcing response precedes first value, values only on announced ids and of the right subscription, others complete while one consumer stalls.",
+         "deterministic simulation (seeded step scheduler) with stream-sequence and wire-order oracles"),
+ "C08": ("exploration", "fault_enumeration", "4 C08",
+         "C07's workload plus termination causes (handler close, subscription-context cancel after k yields, connection fault at frame x position, client close) singly and racing; oracles after heal + 12 fake minutes: every channel handed to a caller is closed, received is a prefix of sent, no double close (process death), no call left hanging.",
+         "deterministic simulation with fault injection, prefix oracle and clock-free hang oracle"),
+ "C17": ("exploration", "exploration", "4 C17",
+         "Fake-clock search over (ping, timeout, server ping) satisfying the documented constraint (timeouts 20 ms..60 s), handler durations up to 5x timeout, idle gaps up to 20x timeout, slow streams; healthy oracle (run-time invariant): no redial, no failed call, no lost stream; black-hole family: pending calls fail with the connection error and a redial starts within 3*timeout+2*ping of the peer falling silent.",
+         "deterministic simulation on a fake clock (testing/synctest) with black-hole fault injection"),
+ "C18": ("exploration", "fault_enumeration", "4 C18",
+         "The closer fires at scheduler step k of a mixed workload (queued/written/answered calls, large frames in chunks, streams, reconnect window, redial in progress); quick samples k, thorough sweeps k = 0..599; oracles after 12 fake minutes: closer returned, all calls returned, late calls fail, every handed channel closed, no dial after the closer returned, http/custom closers return and leave calls alone.",
+         "deterministic simulation with close-instant sweep and clock-free hang oracle"),
 }
 
 not_applicable = {
@@ -56,7 +68,7 @@ def main():
             "evidence_file": f"/verif/evidence/{pid}.json",
             "replay_cmd_template": f"./check {pid} --replay {{path}}",
             "engine": "verifsim",
-            "level_claimed": {"category": t if t == q else t, "text": text + (f" Quick tier level: {q}; thorough tier level: {t}." if q != t else ""), "design_ref": "DESIGN.md section " + ref},
+            "level_claimed": {"category": "exploration", "text": text + (" The thorough tier additionally sweeps the fault / instant dimension systematically (variant index), still sampling schedules; both tiers are reported as exploration." if q != t else ""), "design_ref": "DESIGN.md section " + ref},
             "level_note": NOTE,
             "technique": tech,
         })
